@@ -1227,7 +1227,7 @@ func TestVerifC08(t *testing.T) {
 	mon := kit.NewMonitor(r, 120)
 	defer mon.Close()
 	seeds := c08Seeds(kit.NewRand(r.Seed, "c08-seeds"))
-	r.Phase("hostile", r.N(40000, 2000000), func(c *kit.Case) {
+	r.Phase("hostile", r.N(40000, 1000000), func(c *kit.Case) {
 		cs := c08Gen(c.Rng, seeds, r.Quick())
 		c08Exec(c, mon, cs)
 		c.Distinct(cs.desc + fmt.Sprint(c.Rng.Uint64()))
